@@ -425,6 +425,78 @@ Definition is_suffix_b (s l : list frame) : bool :=
 Definition tail_faithful (l : log) (s : sfile) : bool :=
   match s with None => true | Some ls => is_suffix_b (good_tail ls) l end.
 
+(* ---------- the message ordinal index `.mr.msgord.v1.bin` (message_ordinal_index.rs) ----------
+   32-byte header + 24-byte records (seq, message uuid); a record is identified by the seq of its
+   message.  [OFile recs torn]: valid header, [recs] = the leading complete records, [torn] = number
+   of bytes behind them modulo 24 (0 = record-aligned).  Bytes appended behind a torn record are not
+   readable as records: they keep the file misaligned. *)
+Inductive ofile :=
+| OAbsent
+| OEmpty                      (* zero bytes *)
+| OBadHeader                  (* shorter than the header, or wrong magic / version *)
+| OFile (recs : list N) (torn : N).
+
+(* append_message_record_best_effort_v1: create + header when absent / empty, give up on a bad
+   header, otherwise write 24 bytes at the end — whatever the alignment *)
+Definition ord_append (f : ofile) (seq : N) : ofile :=
+  match f with
+  | OAbsent | OEmpty => OFile [seq] 0
+  | OBadHeader => OBadHeader
+  | OFile recs torn => if torn =? 0 then OFile (recs ++ [seq]) 0 else OFile recs torn
+  end.
+
+Inductive ores (A : Type) := OErr | ONone | OSome (a : A).
+Arguments OErr {A}.
+Arguments ONone {A}.
+Arguments OSome {A} _.
+
+(* message_count_messages_runs_v1: message_count_v1 (alignment) + the only cross-check there is —
+   the last record against the last message of the messages+runs sidecar ([mr_last]: Err / no
+   message / seq of the last message) *)
+Definition ord_count (f : ofile) (mr_last : ores N) : ores N :=
+  match f with
+  | OAbsent => ONone
+  | OEmpty | OBadHeader => OErr
+  | OFile recs torn =>
+    if negb (torn =? 0) then OErr
+    else match mr_last with
+         | OSome last => match rev recs with
+                         | r :: _ => if r =? last then OSome (nlen recs) else OErr
+                         | [] => OErr
+                         end
+         | _ => OErr
+         end
+  end.
+
+(* message_by_ordinal_messages_runs_v1: record #k (1-based), accepted only when the message-id
+   index (rebuilt from the mr sidecar on a miss) knows that message at that seq *)
+Definition ord_by_ordinal (f : ofile) (known : N -> bool) (k : N) : ores N :=
+  match f with
+  | OAbsent => ONone
+  | OEmpty | OBadHeader => OErr
+  | OFile recs _ =>
+    if k =? 0 then ONone
+    else match nth_error recs (N.to_nat (k - 1)) with
+         | Some r => if known r then OSome r else OErr
+         | None => ONone          (* beyond the complete records: absent, or shifted bytes that no index knows *)
+         end
+  end.
+
+Definition ofile_eqb (a b : ofile) : bool :=
+  match a, b with
+  | OAbsent, OAbsent | OEmpty, OEmpty | OBadHeader, OBadHeader => true
+  | OFile r t, OFile r' t' => lN_eqb r r' && (t =? t')
+  | _, _ => false
+  end.
+
+(* one observed write step of the index: the file before and after an append of message [os_seq];
+   [os_msgs] = the thread's message seqs after the operation.  Conforming = the reference append on
+   the file as found, or a rebuild from the truth stream *)
+Record ord_step := { os_before : ofile; os_seq : N; os_after : ofile; os_msgs : list N }.
+Definition ord_step_ok (s : ord_step) : bool :=
+  ofile_eqb (os_after s) (ord_append (os_before s) (os_seq s))
+  || ofile_eqb (os_after s) (OFile (os_msgs s) 0).
+
 (* ---------- correspondence cases ---------- *)
 Inductive query :=
 | QReplay
@@ -501,7 +573,8 @@ Record case := {
   c_cmp_fast : bool;          (* the full sidecar is what the fast path reads for this query
                                  (no other cache can trigger a rebuild first) *)
   c_truth : list N;           (* observed with continuity_streams/ removed *)
-  c_fast : list N             (* observed with the caches as found *)
+  c_fast : list N;            (* observed with the caches as found *)
+  c_ord : list ord_step       (* observed write steps of the ordinal index in this history (first case of a history only) *)
 }.
 
 Definition case_full (c : case) : sfile := option_map (map (resolve_line (c_log c))) (c_full c).
@@ -514,7 +587,8 @@ Definition check_case (k : consts) (c : case) : bool :=
            | Some a => lN_eqb a (c_fast c)
            | None => true
            end
-      else true).
+      else true)
+  && forallb ord_step_ok (c_ord c).
 
 Definition model_obs (k : consts) (c : case) : list N :=
   q_truth k (c_log c) (c_query c) ++ [555555]
